@@ -84,12 +84,27 @@ def gen_cases(ctx):
         cases.append({"i": i, "kind": "bootstrap", "state": "absent", "target": rng.choice(["default", "yaml", "dotslash"]) if k else "default",
                       "pkg": "example.com/m/p1", "variant": k % 3, "env": k % 2 == 1})
         i += 1
+    for k in range(2 if ctx.tier == "quick" else 6):
+        cases.append({"i": i, "kind": "bootstrap", "state": "absent", "target": ["default", "yaml"][k % 2], "pkg": "example.com/m/p1", "variant": k % 3, "env": False,
+                      "ancestor_config": True})
+        i += 1
     return cases
 
 
 def eval_case(ctx, case):
     files = dict(SRC_VARIANTS[case["variant"]])
     root = core.scratch_module(ctx, files)
+    if case.get("ancestor_config"):
+        # the module lives inside a larger repository that has a mockery config of its own further up: the file init writes here is the nearest one
+        outer = root
+        inner = os.path.join(outer, "services", "billing")
+        tmp = outer + ".inner"
+        os.rename(outer, tmp)
+        os.makedirs(os.path.dirname(inner))
+        os.rename(tmp, inner)
+        with open(os.path.join(outer, ".mockery.yml"), "w") as f:
+            f.write("all: true\npackages:\n  example.com/outer/does/not/exist: {}\n")
+        root = inner
     tg = case["target"]
     arg = None
     if tg == "default":
@@ -152,7 +167,7 @@ def eval_case(ctx, case):
     diff = core.snap_diff(before, after)
     rel = os.path.relpath(target, root)
     obs = {"exit": r.exit, "changed": sorted(diff), "target": rel}
-    tags = ["state=" + st, "target=" + tg, "kind=" + case["kind"]] + (["env=MOCKERY_*"] if case.get("env") else [])
+    tags = ["state=" + st, "target=" + tg, "kind=" + case["kind"]] + (["env=MOCKERY_*"] if case.get("env") else []) + (["ancestor-config"] if case.get("ancestor_config") else [])
     if r.panicked:
         return Verdict.violated("init crashed with a Go panic", dict(obs, **r.brief()), tags)
     if existed:
